@@ -42,6 +42,11 @@ static string g_pid = "C14";  // property id used in signatures
 static const vector<uint8_t> ALPHA14 = {0x55, 0x31, 0xc6, 0xc8, 0xe8, 0xcc, 0xc0, 0xec, 0xf0, 0xd0, 0xaa, 0xa9, 0xb1, 0x81};
 // C20: first bytes of all 16 command values (data bits 00) + cf (INFO, data bits 11) + ff, second
 // bytes 80 81 90(16) 91(17) bf aa, plain 00 55 7f
+// frame mode (C14): whole items, so that sequences of several two-byte frames (three RECEIVED SYN while an
+// arbitration is outstanding, results and error frames between them ...) are inside the quick bound:
+// plain 55 | RECEIVED aa (SYN) | RECEIVED a9 | INFO 01 | STARTED 31 | FAILED 31 | ERROR_EBUS overrun |
+// RESETTED 01 | undefined command 4
+static const vector<vector<uint8_t>> FRAMES = {{0x55}, {0xc6, 0xaa}, {0xc6, 0xa9}, {0xcc, 0x81}, {0xc8, 0xb1}, {0xe8, 0xb1}, {0xec, 0x81}, {0xc0, 0x81}, {0xd0, 0x81}};
 static const vector<uint8_t> ALPHA_WIDE = {0xc0, 0xc4, 0xc8, 0xcc, 0xd0, 0xd4, 0xd8, 0xdc, 0xe0, 0xe4, 0xe8, 0xec, 0xf0, 0xf4, 0xf8, 0xfc,
                                            0xcf, 0xff, 0x80, 0x81, 0x90, 0x91, 0xbf, 0xaa, 0x00, 0x55, 0x7f};
 
@@ -73,6 +78,7 @@ static string obsText(const Obs& o) {
          (o.closingSym < 0 ? string("nothing") : ref::symText(static_cast<uint16_t>(o.closingSym))) + ")";
   }
   if (o.reopens) s += " REOPENED(" + std::to_string(o.reopens) + "x)";
+  if (o.arbBad) s += string(" ARB-") + arbName(o.arbBad) + "-WITHOUT-CAUSE-READ";
   if (o.noProgress) s += " NO-PROGRESS";
   if (o.badResult) s += " RESULT=" + std::to_string(o.badResult);
   if (o.overflow) s += " OBS-OVERFLOW";
@@ -261,6 +267,13 @@ static void checkAbs(const Mode& m, const RefInfo& ri, const Obs& o, vector<Alar
     }
     running = false;
   }
+  // ... and the cause must have been read already when the state is reported (synchronous scanner over
+  // the bytes the implementation had read at that call)
+  if (o.arbBad) {
+    out->push_back({"arb-cancelled-without-cause", string(arbName(o.arbBad)) + "-" + ri.cls,
+                    string("running arbitration ended with ") + arbName(o.arbBad) + " before any " +
+                    (o.arbBad == ebusd::as_timeout ? "SYN symbol" : "reset/error/undefined/malformed item") + " had been read: " + arbsOf(o)});
+  }
 }
 
 struct Final {
@@ -354,6 +367,7 @@ static string sigOf(const Mode& m, const Alarm& a) {
 }
 
 // ---- evaluation of all executions of one stream ----------------------------------------------------------
+static uint64_t g_frameStreams = 0;
 static uint64_t g_finalsRun = 0, g_streams = 0, g_partsRepresented = 0, g_maxStates = 0, g_clockBad = 0;
 static bool g_collectDistinct = true;
 
@@ -434,6 +448,10 @@ class Explorer {
   const vector<uint8_t>* alpha;
   int fix0 = -1, fix1 = -1;  // restrict to streams starting with alpha[fix0], alpha[fix1] (work unit)
   int xval = 0;              // validate against the stateless executor up to this length
+  // frame mode: the stream is a sequence of at most maxTok whole items (one or two bytes each) instead
+  // of single alphabet bytes; every byte prefix is still evaluated and every byte boundary can be a cut
+  const vector<vector<uint8_t>>* tokens = nullptr;
+  int maxTok = 0, fixTok = -1;
   uint8_t s[32];
   string keyArena[16];
   vector<std::pair<uint32_t, uint32_t>> keyIndex[16];
@@ -493,15 +511,16 @@ class Explorer {
     core::dropImpl(&f.impl);
   }
   bool mineAt(int n) const {  // is the node at depth n (with the current s) evaluated by this work unit?
+    if (tokens) return n >= 1 || fixTok <= 0;
     if (fix0 < 0) return true;
     if (n >= 2) return true;
     if (n == 1) return fix1 == 0;
     return fix0 == 0 && fix1 == 0;
   }
 
-  void node(int n, vector<BState>& states) {
+  void node(int n, vector<BState>& states, int forced = -1, int ntok = 0) {
     bool eval = mineAt(n);
-    bool needChildren = n < maxLen;
+    bool needChildren = tokens ? (forced >= 0 || ntok < maxTok) : n < maxLen;
     vector<Cfg*> created;      // distinct configurations with all of s[0..n) delivered (kept for the children)
     // keys of every distinct configuration met at this node (arena per depth, reused)
     string& arena = keyArena[n];
@@ -599,6 +618,7 @@ class Explorer {
     }
     if (eval) {
       g_streams++;
+      if (tokens) g_frameStreams++;
       uint64_t reps = 2;
       for (int i = 1; i < n; i++) reps *= 3;
       g_partsRepresented += reps;
@@ -619,6 +639,18 @@ class Explorer {
       for (auto& st : states) child.push_back(st);
       for (auto& st : extra) child.push_back(st);
       for (Cfg* c : created) child.push_back({c, 0});
+      if (tokens && forced >= 0) {  // second byte of the item begun at the previous level
+        s[n] = static_cast<uint8_t>(forced);
+        node(n + 1, child, -1, ntok);
+      } else if (tokens) {
+        for (size_t ti = 0; ti < tokens->size(); ti++) {
+          if (n == 0 && fixTok >= 0 && static_cast<int>(ti) != fixTok) continue;
+          const vector<uint8_t>& tk = (*tokens)[ti];
+          s[n] = tk[0];
+          node(n + 1, child, tk.size() > 1 ? tk[1] : -1, ntok + 1);
+          if (R.expired()) break;
+        }
+      } else
       for (size_t bi = 0; bi < alpha->size(); bi++) {
         if (n == 0 && fix0 >= 0 && static_cast<int>(bi) != fix0) continue;
         if (n == 1 && fix1 >= 0 && static_cast<int>(bi) != fix1) continue;
@@ -865,7 +897,7 @@ static int replayInfo(std::map<string, string>& c) {
 }
 
 // ---- main -----------------------------------------------------------------------------------------------------
-struct Unit { int start, arb, pat, b0, b1, len; };
+struct Unit { int start, arb, pat, b0, b1, len; int tok = -1, ntok = 0; };  // tok >= 0: frame mode, first item FRAMES[tok]
 
 static void runUnit(const Unit& u, bool san, const vector<uint8_t>& alpha, int /*len*/, int xval) {
   int len = u.len;
@@ -876,6 +908,14 @@ static void runUnit(const Unit& u, bool san, const vector<uint8_t>& alpha, int /
   ex.fix0 = u.b0;
   ex.fix1 = u.b1;
   ex.xval = xval;
+  if (u.tok >= 0) {
+    ex.tokens = &FRAMES;
+    ex.fixTok = u.tok;
+    ex.maxTok = u.ntok;
+    ex.maxLen = 2 * u.ntok;
+    ex.fix0 = ex.fix1 = -1;
+    ex.xval = 0;
+  }
   ex.run();
 }
 
@@ -933,6 +973,20 @@ int main(int argc, char** argv) {
     if (san) {
       g_progress = static_cast<Progress*>(mmap(nullptr, sizeof(Progress), PROT_READ | PROT_WRITE, MAP_SHARED | MAP_ANONYMOUS, -1, 0));
       g_collectDistinct = true;
+    }
+    // frame mode units: streams of at most --frames whole items, every mode combination
+    int frames = static_cast<int>(A.getInt("frames", san ? 0 : (A.thorough() ? 5 : 4)));
+    if (frames > 7) frames = 7;
+    if (frames > 0 && !san) {
+      vector<Unit> fu;
+      for (size_t ti = 0; ti < FRAMES.size(); ti++)
+        for (int st = 0; st < core::NSTART; st++) for (int arb = 0; arb < 2; arb++) for (int pat = 0; pat < core::NPAT; pat++) {
+          Unit u{st, arb, pat, -1, -1, 2 * frames};
+          u.tok = static_cast<int>(ti);
+          u.ntok = frames;
+          fu.push_back(u);
+        }
+      units.insert(units.begin(), fu.begin(), fu.end());
     }
     int batch = static_cast<int>(A.getInt("batch", 8));
     vector<Unit> mine;
@@ -1051,6 +1105,7 @@ int main(int argc, char** argv) {
   R.evaluations += g_finalsRun;
   R.tracesValidated += g_finalsRun;
   R.count("enh_streams_x_modes", g_streams);
+  R.count("enh_frame_mode_streams_x_modes", g_frameStreams);
   R.count("enh_partitions_represented", g_partsRepresented);
   R.count("enh_executions_run", g_finalsRun);
   R.count("enh_impl_copies", core::g_clones);
